@@ -1,0 +1,39 @@
+//go:build verif
+
+// Contracts for contract-based deductive verification (see /verif/DESIGN.md).
+// Comment-only file: it contributes no code to any build.
+
+package segment
+
+//@ pure timeNow
+
+//@ func (*ReadBuffer).add
+//@   props C14
+//@   nopanic
+//@   requires 0 <= segIdx && 0 <= b.MsgSize
+//@   modifies b.SegCount; b.MsgSize; elems(b.Msgs)
+//@   ensures unchanged(b.Msgs)
+//@   ensures imp(old(len(b.Msgs)) <= segIdx, !result1 && result0 == nil && unchanged(b.SegCount) && unchanged(b.MsgSize))
+//@   ensures imp(old(len(b.Msgs)) <= segIdx, forall(j, int, imp(0 <= j && j < len(b.Msgs), b.Msgs[j] == old(b.Msgs[j]))))
+//@   ensures imp(segIdx < old(len(b.Msgs)), b.SegCount == old(b.SegCount) + 1 && b.MsgSize == old(b.MsgSize) + len(bs))
+//@   ensures imp(segIdx < old(len(b.Msgs)), b.Msgs[segIdx] == bs && forall(j, int, imp(0 <= j && j < len(b.Msgs) && j != segIdx, b.Msgs[j] == old(b.Msgs[j]))))
+//@   ensures result1 == (segIdx < old(len(b.Msgs)) && old(len(b.Msgs)) == old(b.SegCount) + 1)
+
+//@ func (*ReadBuffers).Receive
+//@   props C14
+//@   nopanic
+//@   requires t.ReadBuffer != nil
+//@   requires forall(s, uint32, imp(has(t.ReadBuffer, s), t.ReadBuffer[s] != nil && 0 <= t.ReadBuffer[s].MsgSize))
+//@   ensures result2 == nil
+//@   ensures imp(len(bs) < 8, !result1 && result0 == nil)
+//@   ensures imp(len(bs) < 8, forall(s, uint32, has(t.ReadBuffer, s) == old(has(t.ReadBuffer, s)) && t.ReadBuffer[s] == old(t.ReadBuffer[s])))
+//@   ensures imp(len(bs) >= 8, forall(s, uint32, imp(s != be32(bs, 0), has(t.ReadBuffer, s) == old(has(t.ReadBuffer, s)) && t.ReadBuffer[s] == old(t.ReadBuffer[s]))))
+//@   ensures imp(len(bs) >= 8, has(t.ReadBuffer, be32(bs, 0)) == !result1)
+
+//@ func (*ReadBuffer).build
+//@   props C14
+//@   nopanic
+//@   requires 0 <= b.MsgSize
+//@   modifies nothing
+//@   ensures fresh(result)
+//@   loop 1 invariant fresh(res)
